@@ -18,7 +18,7 @@ def build(sc, pts, k):
         dg = osyris.Datagroup()
         n = len(p) if g["pos"] >= 0 else (3 if g["pos"] == -1 else 6)
         if g["pos"] > 0:
-            dg["position"] = osyris.Vector(*[np.array([float(q[d]) for q in p]) for d in range(3)], unit="cm")
+            dg["position"] = osyris.Vector(*[np.array([float(q[d]) for q in p]) for d in range(sc.get("nd", 3))], unit="cm")
         dg["mass"] = osyris.Array(np.arange(1, n + 1, dtype=float) * 10 + len(g["name"]), unit="g")
         dg["velocity"] = osyris.Vector(np.arange(n, dtype=float), np.arange(n, dtype=float) * 2 + 1, np.arange(n, dtype=float) - 5, unit="km/s")
         dg["id"] = osyris.Array(np.arange(100, 100 + n, dtype=np.int64))
@@ -68,8 +68,8 @@ def run_c16(rep, tier, seed):
             ur, fr = UNITS[(i + 2 * k + 1) % 3]
             ds, truth = build(sc, r["pts"], k)
             before = snap(ds)
-            origin = osyris.Vector(*[float(x) * fo for x in sc["o"]], unit=uo)
-            rep.case(klass=(sc["kind"], i, uo, ur))
+            origin = osyris.Vector(*[float(x) * fo for x in sc["o"][:sc.get("nd", 3)]], unit=uo)
+            rep.case(klass=(sc["kind"], i, uo, ur, sc.get("nd", 3)))
             try:
                 with warnings.catch_warnings():
                     warnings.simplefilter("ignore")
